@@ -1,4 +1,5 @@
 import MesaModel.Proofs.LayersTyped
+import MesaModel.Gen.NumpyTables
 /-!
 # C11 — property layers and cell attributes are one value; selection is exact
 
@@ -526,6 +527,45 @@ theorem C11_from_data_copies {s s' : State} (h : Reach s) {n : String} {hd : Nat
           simp [State.value, upd, hne]
         · obtain ⟨_, _, rfl⟩ := layerSet_ok hs
           simp [hget, hlk, upd, hne.symm]
+
+/-! ## the cast and promotion rules are numpy's -/
+
+/-- The model's cast rules are numpy's: for all element types, `sameKind` is what `np.copyto` of the running numpy accepts
+    (scalar and array sources: `set_cells`), and `DType.join` is the dtype `np.where` gives the re-pointed array
+    (`modify_cells`).  `Gen/NumpyTables.lean` is probed from the running interpreter on every check. -/
+theorem C11_cast_rules_match_numpy (a b : DType) :
+    Gen.npCopytoScalar.lookup (a.rank, b.rank) = some (sameKind a b) ∧
+    Gen.npCopytoArray.lookup (a.rank, b.rank) = some (sameKind a b) ∧
+    Gen.npWhereType.lookup (a.rank, b.rank) = some (a.join b).rank := by
+  cases a <;> cases b <;> decide
+
+set_option maxRecDepth 8000 in
+/-- `UOp.result` is the result type of the running numpy for every ufunc of the op language, every array dtype and every
+    type of Python scalar (`none` = numpy's `TypeError`: boolean subtract) — as a ufunc and, for the operators whose
+    Python-function form is in the op language, as `np.vectorize(lambda x: x OP scalar)`. -/
+theorem C11_ufunc_types_match_numpy (op : UOp) (d t : DType) :
+    Gen.npUfuncType.lookup (op.name, d.rank, t.rank) = some ((op.result d t).map DType.rank) ∧
+    (op ≠ .max → op ≠ .min →
+      Gen.npFnType.lookup (op.name, d.rank, t.rank) = some ((op.result d t).map DType.rank)) := by
+  cases op <;> cases d <;> cases t <;> decide
+
+set_option maxRecDepth 8000 in
+/-- On the probed sample grid (every pair of types; negative, zero, integral and non-integral values) the model's values are
+    numpy's: `castTo` is the entry left by `arr[0] = scalar` and by `np.full(shape, scalar, dtype)`, `UOp.apply` the entry
+    of `ufunc(array, scalar)` in the encoding of the result dtype. -/
+theorem C11_cast_values_match_numpy :
+    (∀ e ∈ Gen.npAssign, castCode e.1.1 e.1.2.1 e.1.2.2 = some e.2) ∧
+    (∀ e ∈ Gen.npFull, castCode e.1.1 e.1.2.1 e.1.2.2 = some e.2) ∧
+    (∀ e ∈ Gen.npUfuncValue, applyCode e.1.1 e.1.2.1 e.1.2.2.1 e.1.2.2.2.1 e.1.2.2.2.2 = some e.2) := by
+  refine ⟨by decide, by decide, by decide⟩
+
+set_option maxRecDepth 8000 in
+/-- the probed tables are not empty and say what one expects: -2.75 assigned into an int array is -2, 2.75 into a bool
+    array True; `np.add(int array, 0.5)` is a float array -/
+example : 50 ≤ Gen.npAssign.length ∧ 50 ≤ Gen.npFull.length ∧ 200 ≤ Gen.npUfuncValue.length ∧
+    Gen.npAssign.lookup (1, 2, -11) = some (-2) ∧ Gen.npFull.lookup (0, 2, 11) = some 1 ∧
+    Gen.npUfuncType.lookup ("add", 1, 2) = some (some 2) ∧ Gen.npUfuncValue.lookup ("add", 1, -3, 2, 2) = some (-10) := by
+  decide
 
 /-! ## adding and removing layers -/
 
